@@ -46,6 +46,54 @@ RESTRICTIONS = [
     ("include of an extern rule", "@export A = >E; @extern(crate::f) E;"),
     ("include of a missing rule, nested", "@export A = 'a' { [ >Nope ] } ;"),
 ]
+# expression-level violations, to be embedded in every syntactic context (the same construct must be rejected
+# whether it is the whole body, one alternative of a choice, inside brackets, in a sequence, behind a lookahead ...)
+BAD_EXPRS = [
+    ("non-ascii insensitive literal", "i'é'", ""),
+    ("non-ascii insensitive literal \\xe9", "i'\\xe9'", ""),
+    ("non-ascii insensitive literal multi", "i\"aéb\"", ""),
+    ("invalid code point u{110000}", "'\\u{110000}'", ""),
+    ("invalid code point u{D800}", "'a\\u{D800}'", ""),
+    ("invalid code point \\uDFFF", "'\\uDFFF'", ""),
+    ("invalid code point \\U00FFFFFF", "'\\U00FFFFFF'", ""),
+    ("invalid code point in range start", "'\\u{D800}'..'z'", ""),
+    ("invalid code point in range end", "'a'..'\\u{FFFFFF}'", ""),
+    ("include of a missing rule", ">Nope", ""),
+    ("include of a char rule", ">Cq", "@char Cq = 'a';"),
+    ("include of an extern rule", ">Eq", "@extern(crate::f) Eq;"),
+    ("field in negative lookahead", "!(x:Bq)", "Bq = 'b';"),
+    ("field in positive lookahead", "&x:Bq", "Bq = 'b';"),
+    ("field in lookahead via include", "!(>Dq)", "Dq = x:Bq; Bq = 'b';"),
+]
+CONTEXTS = [
+    ("alone", "%s"), ("seq-first", "%s 'k'"), ("seq-last", "'k' %s"), ("seq-middle", "'k' %s 'm'"),
+    ("choice-first", "%s | 'k'"), ("choice-last", "'k' | %s"), ("choice-middle", "'k' | %s | 'm'"),
+    ("group", "( %s )"), ("optional", "[ %s ]"), ("closure", "{ %s 'k' }"), ("closure+", "{ 'k' %s }+"),
+    ("group-choice", "'x' ( 'k' | %s ) 'y'"), ("closure-choice", "{ 'k' | %s 'm' }"), ("optional-choice", "[ %s | 'k' ] 'z'"),
+    ("neg-lookahead", "!( 'k' | %s ) 'q'"), ("pos-lookahead", "&( %s ) 'q'"), ("nested", "'a' [ { ( 'k' | ( %s ) ) 'm' } ]"),
+    ("with-field", "f:Fq ( %s | g:Fq )"), ("string-rule", "@STRING %s | 'k'"), ("memo-rule", "@MEMO 'k' | %s"),
+]
+
+
+def bad_expr_corpus():
+    out = []
+    for (name, expr, extra) in BAD_EXPRS:
+        for (cname, tmpl) in CONTEXTS:
+            if "lookahead" in name and "lookahead" in cname:
+                pass
+            body = tmpl % expr
+            directives = "@export "
+            if body.startswith("@STRING "):
+                body = body[8:]
+                directives = "@string @no_skip_ws "
+            elif body.startswith("@MEMO "):
+                body = body[6:]
+                directives = "@export @memoize "
+            text = "%sAq = %s;\nFq = 'f';\n%s\n" % (directives, body, extra)
+            out.append(("restriction/%s/%s" % (name, cname), text))
+    return out
+
+
 MEMO_NOCLONE = ("memoize without Clone", "@export @memoize A = 'a';", "Debug")
 
 HOSTILE = [
@@ -210,6 +258,8 @@ def check_C15(tier, seed):
         renamed = re.sub(r"\b([ABCE])\b", lambda m: "Rq" + m.group(1), t)
         corpus.append(("restriction+ctx:" + lab, base + "\n" + renamed.replace("Nope", "RqNope"), "-", "err"))
         corpus.append(("restriction+layout:" + lab, t.replace(" ", " \n# c\n\t").replace(";", " ;\n"), "-", "err"))
+    for lab, t in bad_expr_corpus():
+        corpus.append(("restriction:" + lab, t, "-", "err"))
     corpus.append(("restriction:" + MEMO_NOCLONE[0], MEMO_NOCLONE[1], MEMO_NOCLONE[2], "err"))
     corpus.append(("restriction:" + MEMO_NOCLONE[0] + " (empty derives)", MEMO_NOCLONE[1], "=", "err"))
     corpus.append(("restriction:leftrec without Clone", "@export @leftrec A = A 'x' | 'b';", "Debug", "any"))
